@@ -346,4 +346,165 @@ func sampleRun(sum *Summary, c json.RawMessage, sc *sCase, s, o float64, rng *ra
 	}
 }
 
-func sampleRecord(out io.Writer, args []string) error { return io.EOF }
+type sampleEvent struct {
+	Op        string  `json:"op"`
+	I         int     `json:"i"`
+	J         int     `json:"j"`
+	Xs        []int64 `json:"xs"`
+	Ws        []int64 `json:"ws"`
+	Weighted  int     `json:"weighted"`
+	Sorted    int     `json:"sorted"`
+	SameStore int     `json:"samestore"`
+	RetSelf   int     `json:"retself"`
+	Disjoint  int     `json:"disjoint"`
+	F         string  `json:"f"`
+	A         int     `json:"a"`
+	R         fdy     `json:"r"`
+	Unchanged int     `json:"unchanged"`
+	Seed      int64   `json:"seed"`
+	Idx       int     `json:"idx"`
+}
+
+func b2i(b bool) int {
+	if b {
+		return 1
+	}
+	return 0
+}
+
+func toInts(x []float64) []int64 {
+	out := make([]int64, len(x))
+	for i, v := range x {
+		out[i] = int64(v)
+		if float64(out[i]) != v {
+			out[i] = math.MinInt32 // not an integer any more: no action explains it
+		}
+	}
+	return out
+}
+
+func sampleRecord(out io.Writer, args []string) error {
+	rf := newRecFlags("sample", 60)
+	maxN := rf.fs.Int("max", 60, "largest sample")
+	ops := rf.fs.Int("ops", 30, "operations per history")
+	funcs := rf.fs.String("funcs", "all", "which queries to record: all, quantile, stats")
+	rf.fs.Parse(args)
+	enc := json.NewEncoder(out)
+	z := mkfdy(0)
+	for idx := 0; idx < *rf.n; idx++ {
+		if !rf.mine(idx) {
+			continue
+		}
+		rng := rand.New(rand.NewSource(*rf.seed*1000003 + int64(idx)))
+		enc.Encode(sampleEvent{Op: "Reset", Seed: *rf.seed, Idx: idx, Xs: []int64{}, Ws: []int64{}, R: z})
+		var objs []*stats.Sample
+		newObj := func() {
+			n := rng.Intn(*maxN + 1)
+			if rng.Intn(6) == 0 {
+				n = rng.Intn(3)
+			}
+			span := []int64{3, 40, 1000, 1000000}[rng.Intn(4)]
+			off := []int64{0, 0, -500, 1000000}[rng.Intn(4)]
+			s := &stats.Sample{Xs: make([]float64, n)}
+			for i := range s.Xs {
+				s.Xs[i] = float64(off + rng.Int63n(span) - span/2)
+			}
+			weighted := rng.Intn(3) == 0
+			if weighted {
+				s.Weights = make([]float64, n)
+				pos := false
+				for i := range s.Weights {
+					s.Weights[i] = float64(rng.Intn(4))
+					pos = pos || s.Weights[i] > 0
+				}
+				if !pos && n > 0 {
+					s.Weights[rng.Intn(n)] = 2
+				}
+			}
+			if rng.Intn(4) == 0 {
+				// hand over ascending data, sometimes flagged as sorted
+				if weighted {
+					idx := make([]int, n)
+					for i := range idx {
+						idx[i] = i
+					}
+					sort.Slice(idx, func(a, b int) bool { return s.Xs[idx[a]] < s.Xs[idx[b]] })
+					nx, nw := make([]float64, n), make([]float64, n)
+					for k, i := range idx {
+						nx[k], nw[k] = s.Xs[i], s.Weights[i]
+					}
+					s.Xs, s.Weights = nx, nw
+				} else {
+					sort.Float64s(s.Xs)
+				}
+				s.Sorted = rng.Intn(2) == 0
+			}
+			objs = append(objs, s)
+			ev := sampleEvent{Op: "New", I: len(objs), Xs: toInts(s.Xs), Ws: toInts(s.Weights), Weighted: b2i(weighted), Sorted: b2i(s.Sorted), Seed: *rf.seed, Idx: idx, R: z}
+			enc.Encode(ev)
+		}
+		newObj()
+		for k := 0; k < *ops; k++ {
+			i := rng.Intn(len(objs))
+			s := objs[i]
+			switch r := rng.Intn(12); {
+			case r == 0 && len(objs) < 4:
+				newObj()
+			case r == 1:
+				px, pw := ptr(s.Xs), ptr(s.Weights)
+				ret := s.Sort()
+				enc.Encode(sampleEvent{Op: "Sort", I: i + 1, Xs: toInts(s.Xs), Ws: toInts(s.Weights), Sorted: b2i(s.Sorted),
+					SameStore: b2i(ptr(s.Xs) == px && ptr(s.Weights) == pw), RetSelf: b2i(ret == s), Seed: *rf.seed, Idx: idx, R: z})
+			case r == 2 && len(objs) < 4:
+				cp := s.Copy()
+				dis := len(s.Xs) == 0 || (ptr(cp.Xs) != ptr(s.Xs) && (s.Weights == nil || ptr(cp.Weights) != ptr(s.Weights)))
+				dis = dis && (cp.Weights == nil) == (s.Weights == nil)
+				objs = append(objs, cp)
+				enc.Encode(sampleEvent{Op: "Copy", I: i + 1, J: len(objs), Xs: toInts(cp.Xs), Ws: toInts(cp.Weights), Sorted: b2i(cp.Sorted), Disjoint: b2i(dis), Seed: *rf.seed, Idx: idx, R: z})
+			default:
+				fs := []string{"Mean", "Sum", "Weight", "Min", "Max", "Quantile", "Quantile", "Quantile", "IQR", "Variance"}
+				if *funcs == "quantile" {
+					fs = []string{"Quantile", "Quantile", "Quantile", "IQR"}
+				} else if *funcs == "stats" {
+					fs = []string{"Mean", "Sum", "Weight", "Min", "Max", "Variance"}
+				}
+				f := fs[rng.Intn(len(fs))]
+				if s.Weights != nil && f == "Variance" {
+					f = fs[0]
+				}
+				if len(s.Xs) == 0 && f == "IQR" {
+					f = "Quantile"
+				}
+				sx, sw, sf := append([]float64{}, s.Xs...), append([]float64(nil), s.Weights...), s.Sorted
+				ev := sampleEvent{Op: "Query", I: i + 1, F: f, Xs: []int64{}, Ws: []int64{}, Seed: *rf.seed, Idx: idx}
+				var r float64
+				switch f {
+				case "Mean":
+					r = s.Mean()
+				case "Sum":
+					r = s.Sum()
+				case "Weight":
+					r = s.Weight()
+				case "Min":
+					r, _ = s.Bounds()
+				case "Max":
+					_, r = s.Bounds()
+				case "Variance":
+					r = s.Variance()
+				case "IQR":
+					r = s.IQR()
+				case "Quantile":
+					ev.A = rng.Intn(1400) - 200
+					if rng.Intn(5) == 0 {
+						ev.A = []int{0, 256, 512, 768, 1024}[rng.Intn(5)]
+					}
+					r = s.Quantile(float64(ev.A) / 1024)
+				}
+				ev.R = mkfdy(r)
+				ev.Unchanged = b2i(bitsEqual(s.Xs, sx) && bitsEqual(s.Weights, sw) && s.Sorted == sf)
+				enc.Encode(ev)
+			}
+		}
+	}
+	return nil
+}
